@@ -10,6 +10,7 @@ import (
 	"verif/harness/c08"
 	"verif/harness/c12"
 	"verif/harness/c15"
+	"verif/harness/c16"
 	"verif/harness/c17"
 	"verif/harness/c19"
 )
@@ -37,6 +38,8 @@ func init() {
 	reg("c05", "BusPages", func(a []int64) { c05.BusPages(int(a[0])) })
 	reg("c05", "PakPages", func(a []int64) { c05.PakPages(int(a[0])) })
 	reg("c15", "Listing", func(a []int64) { c15.Listing(a[0], int(a[1]), int(a[2]), int(a[3]), int(a[4])) })
+	reg("c16", "Split", func(a []int64) { c16.Split(a[0], int(a[1]), int(a[2]), int(a[3]), int(a[4])) })
+	reg("c16", "AppendTooBig", func(a []int64) { c16.AppendTooBig(int(a[0]), int(a[1]), int(a[2]), int(a[3])) })
 	reg("c19", "Data", func(a []int64) { c19.Data(int(a[0]), int(a[1]), int(a[2])) })
 	reg("c19", "DrySequence", func(a []int64) { c19.DrySequence(int(a[0]), int(a[1])) })
 	reg("c17", "UnpackPack", func(a []int64) { c17.UnpackPack() })
